@@ -16,12 +16,17 @@ import (
 
 var c09sets = []string{"zero", "past", "+5ms", "+10ms", "+20ms", "+400y"}
 
-func c09scenario(steps, bound int, gaps bool) *explore.Scenario {
+func c09scenario(steps, bound int, gaps bool, yieldOnRelease ...bool) *explore.Scenario {
 	name := fmt.Sprintf("deadline %d sets", steps)
 	if gaps {
 		name += " +gaps"
 	}
 	sc := &explore.Scenario{Name: name, Bound: bound}
+	if len(yieldOnRelease) > 0 && yieldOnRelease[0] {
+		// what Set and the expiry callback do after giving up the mutex is interleaved too
+		sc.Name += ", yield after unlock"
+		sc.Cfg.YieldOnRelease = true
+	}
 	sc.Cfg.Horizon = 10 * time.Second
 	sc.Make = func() (func(), func(*zzvsched.Exec) (string, *explore.Violation)) {
 		var viol *explore.Violation
@@ -93,6 +98,8 @@ func c09scenario(steps, bound int, gaps bool) *explore.Scenario {
 					obs(fmt.Sprintf("before Set #%d", i+2))
 				}
 			}
+			zzvsched.SleepIdle(time.Millisecond)
+			obs("1 ms after the last Set, all callbacks run")
 			zzvsched.SleepIdle(100 * time.Millisecond)
 			finalSignalled = obs("at quiescence")
 			finalWant = !last.IsZero() && last.Sub(zzvsched.Base) < 100*365*24*time.Hour && last.Year() < 2300
@@ -130,12 +137,12 @@ func init() {
 	register(&Check{ID: "C09",
 		Scenarios: func(tier string) []*explore.Scenario {
 			if tier == "quick" {
-				return []*explore.Scenario{c09scenario(3, 2, false), c09scenario(2, 2, true)}
+				return []*explore.Scenario{c09scenario(3, 2, false), c09scenario(2, 2, true), c09scenario(2, 2, true, true)}
 			}
 			// bound -1 = unbounded: the happens-before state cache closes the whole interleaving space
-			return []*explore.Scenario{c09scenario(4, 2, false), c09scenario(3, -1, false), c09scenario(3, 2, true), c09scenario(2, -1, true)}
+			return []*explore.Scenario{c09scenario(4, 2, false), c09scenario(3, -1, false), c09scenario(3, 2, true), c09scenario(2, -1, true), c09scenario(2, 3, true, true), c09scenario(3, 2, false, true)}
 		},
-		Rule: "all scripts of Set(zero|past|+5ms|+10ms|+20ms) of the stated length (optionally separated by 0/7/12 ms sleeps) x every placement, within the deviation bound, of timer expiries and of the separately scheduled timer callbacks (so up to 3 dispatched-but-not-run callbacks are outstanding); Done/Err/Deadline observed after every Set, before the next one and at quiescence 100 ms later",
+		Rule: "all scripts of Set(zero|past|+5ms|+10ms|+20ms) of the stated length (optionally separated by 0/7/12 ms sleeps) x every placement, within the deviation bound, of timer expiries and of the separately scheduled timer callbacks (so up to 3 dispatched-but-not-run callbacks are outstanding); Done/Err/Deadline observed after every Set, before the next one, 1 ms after the last one and at quiescence 100 ms later; one family additionally has a scheduling point after every unlock",
 		Assumptions: []string{"the runtime timer is modelled: expiry dispatches the callback as a new thread whose first lock acquisition is a scheduling point; Stop reports whether the expiry had not been dispatched yet",
 			"signalled-ness is judged strictly (never before the latest Set's time); being signalled is required only at quiescence"}})
 }
